@@ -5,9 +5,12 @@ package main
 import (
 	"crypto/md5"
 	"fmt"
+	"math/big"
+	"strconv"
 	"strings"
 
 	"github.com/gocql/gocql"
+	"verifharness/valgen"
 	"verifharness/vh"
 )
 
@@ -46,12 +49,26 @@ func exec(op string) (res string) {
 		return gocql.VerifHash("random", k)
 	case "ordlt":
 		return fmt.Sprint(gocql.VerifHashLess("ordered", hx(1), hx(2)))
-	case "parsem":
+	case "parsem", "parsemx":
 		return gocql.VerifParseToken("murmur3", string(hx(1)))
 	case "parser":
 		return gocql.VerifParseToken("random", string(hx(1)))
-	case "lessm":
+	case "lessm", "lessmx":
 		return fmt.Sprint(gocql.VerifTokenLess("murmur3", string(hx(1)), string(hx(2))))
+	case "hlessm":
+		return fmt.Sprint(gocql.VerifHashLess("murmur3", hx(1), hx(2)))
+	case "hlessr":
+		for _, i := range []int{1, 3} {
+			s := md5.Sum(hx(i + 1))
+			if string(s[:]) != string(hx(i)) {
+				return "bad-op"
+			}
+		}
+		return fmt.Sprint(gocql.VerifHashLess("random", hx(2), hx(4)))
+	case "rkm", "rkmx":
+		return parseRkm(w).run()
+	case "ringsort":
+		return execRingsort(w)
 	case "lessr":
 		return fmt.Sprint(gocql.VerifTokenLess("random", string(hx(1)), string(hx(2))))
 	case "qrk", "qrke":
@@ -179,6 +196,41 @@ func decString(r *vh.Rng) string {
 	}
 }
 
+// boundary Murmur3 tokens: the ends of the int64 range, +-2^62, +-2^63-1 neighbours, around 0
+var boundaryTokens = []string{"-9223372036854775808", "-9223372036854775807", "-4611686018427387905", "-4611686018427387904",
+	"-4611686018427387903", "-2", "-1", "0", "1", "2", "4611686018427387903", "4611686018427387904", "4611686018427387905",
+	"9223372036854775806", "9223372036854775807"}
+
+func boundaryToken(r *vh.Rng) string { return boundaryTokens[r.Intn(len(boundaryTokens))] }
+
+func canonicalInt64(s string) bool {
+	v, err := strconv.ParseInt(s, 10, 64)
+	return err == nil && strconv.FormatInt(v, 10) == s
+}
+
+// tokenPairClass: how far apart two valid tokens are (a difference beyond int64 is where a comparison by
+// subtraction breaks) and whether they are equal / adjacent
+func tokenPairClass(s, t string) string {
+	a, ok1 := new(big.Int).SetString(s, 10)
+	b, ok2 := new(big.Int).SetString(t, 10)
+	if !ok1 || !ok2 {
+		return "malformed"
+	}
+	d := new(big.Int).Sub(a, b)
+	d.Abs(d)
+	switch {
+	case d.Sign() == 0:
+		return "equal"
+	case d.Cmp(big.NewInt(1)) == 0:
+		return "adjacent"
+	case d.BitLen() > 63:
+		return "apart>=2^63"
+	case d.BitLen() > 62:
+		return "apart>=2^62"
+	}
+	return "near"
+}
+
 func natString(r *vh.Rng) string {
 	n := 1 + r.Intn(39)
 	var sb strings.Builder
@@ -273,11 +325,88 @@ func main() {
 	}
 	for i := 0; i < 3000*mult; i++ {
 		s := decString(r)
-		op := "parsem " + vh.Hex([]byte(s))
-		out.Case(op, exec(op), "parsem", true)
+		pn := "parsem"
+		if i%5 == 0 {
+			s = boundaryToken(r)
+		}
+		if !canonicalInt64(s) {
+			pn = "parsemx" // malformed / out of range / non-canonical: not constrained by the property
+		}
+		op := pn + " " + vh.Hex([]byte(s))
+		out.Case(op, exec(op), pn, true)
 		t := decString(r)
-		op = "lessm " + vh.Hex([]byte(s)) + " " + vh.Hex([]byte(t))
-		out.Case(op, exec(op), "lessm", true)
+		if i%3 == 0 {
+			s, t = boundaryToken(r), boundaryToken(r)
+		}
+		name, cls := "lessm", "lessm/"+tokenPairClass(s, t)
+		if !canonicalInt64(s) || !canonicalInt64(t) {
+			// malformed / out-of-range / non-canonical strings: the property does not constrain them (model-vs-code)
+			name, cls = "lessmx", "lessmx"
+		}
+		op = name + " " + vh.Hex([]byte(s)) + " " + vh.Hex([]byte(t))
+		out.Case(op, exec(op), cls, true)
+	}
+	// every ordered pair of the boundary tokens
+	for _, s := range boundaryTokens {
+		for _, t := range boundaryTokens {
+			op := "lessm " + vh.Hex([]byte(s)) + " " + vh.Hex([]byte(t))
+			out.Case(op, exec(op), "lessm/"+tokenPairClass(s, t), true)
+		}
+	}
+	// Less on the tokens of hashed keys
+	for i := 0; i < 1500*mult; i++ {
+		a, b := genKey(r, r.Intn(24)), genKey(r, r.Intn(24))
+		if r.Intn(8) == 0 {
+			b = a
+		}
+		op := "hlessm " + vh.Hex(a) + " " + vh.Hex(b)
+		out.Case(op, exec(op), "hlessm", true)
+		if i%3 == 0 {
+			da, db := md5.Sum(a), md5.Sum(b)
+			op = "hlessr " + vh.Hex(da[:]) + " " + vh.Hex(a) + " " + vh.Hex(db[:]) + " " + vh.Hex(b)
+			out.Case(op, exec(op), "hlessr", true)
+		}
+	}
+	// the token ring order: hosts with 1..8 tokens each, shuffled, over the full token range
+	for i := 0; i < 600*mult; i++ {
+		kind := []string{"m", "m", "m", "r", "o"}[r.Intn(5)]
+		nh := 1 + r.Intn(6)
+		var sb strings.Builder
+		sb.WriteString("ringsort " + kind)
+		n := 0
+		for h := 0; h < nh; h++ {
+			if h > 0 {
+				sb.WriteString(" /")
+			}
+			for k := 0; k <= r.Intn(8); k++ {
+				n++
+				switch kind {
+				case "m":
+					if r.Intn(3) == 0 {
+						sb.WriteString(" " + boundaryToken(r))
+					} else {
+						sb.WriteString(" " + fmt.Sprint(int64(r.U64())))
+					}
+				case "r":
+					sb.WriteString(" " + natString(r))
+				default:
+					sb.WriteString(" " + vh.Hex(genKey(r, r.Intn(5))))
+				}
+			}
+		}
+		op := sb.String()
+		out.Case(op, exec(op), fmt.Sprintf("ringsort/%s/%d", kind, (n+3)/4*4), true)
+	}
+	// routing keys through the real Session.routingKeyInfo: statement shapes x metadata source x key types
+	g := &valgen.Gen{R: r}
+	for i := 0; i < 2500*mult; i++ {
+		c, sb, cls := genRkm(r, g)
+		name := "rkm"
+		if !sb {
+			name = "rkmx"
+		}
+		op := c.op(name)
+		out.Case(op, exec(op), cls, true)
 	}
 	for i := 0; i < 2000*mult; i++ {
 		s, t := natString(r), natString(r)
